@@ -52,7 +52,9 @@ func bceReport(p *Prog) (map[string]string, error) {
 	}
 	out := map[string]string{}
 	for _, mod := range []string{"core", "extras", "app"} {
-		cmd := exec.Command("go", "build", "-gcflags=-d=ssa/check_bce/debug=1", "./...")
+		// -trimpath keeps the directory out of the build cache key, so that scratch copies of the
+		// repository (selftest, cross-checks) share cache entries instead of adding ~200 MB each
+		cmd := exec.Command("go", "build", "-trimpath", "-gcflags=-d=ssa/check_bce/debug=1", "./...")
 		cmd.Dir = filepath.Join(repoRoot, mod)
 		cmd.Env = goEnv(p.Cfg, work)
 		var buf bytes.Buffer
@@ -68,6 +70,12 @@ func bceReport(p *Prog) (map[string]string, error) {
 				continue
 			}
 			file := m[1]
+			// with -trimpath the compiler names files by import path
+			for _, mp := range [][2]string{{modCore, "core"}, {modExtras, "extras"}, {modApp, "app"}} {
+				if strings.HasPrefix(file, mp[0]+"/") {
+					file = filepath.Join(repoRoot, mp[1], strings.TrimPrefix(file, mp[0]+"/"))
+				}
+			}
 			if !filepath.IsAbs(file) {
 				file = filepath.Join(repoRoot, mod, file)
 			}
